@@ -208,6 +208,7 @@ pub const BUILTINS: &[(&str, usize, bool)] = &[
     ("list-ref", 2, false),
     ("floor-quotient", 2, false),
     ("floor-remainder", 2, false),
+    ("map", 2, false),
     ("abs", 1, false),
     ("floor", 1, false),
     ("ceiling", 1, false),
@@ -833,6 +834,19 @@ impl Machine {
                 }
                 self.vectors[id].items[k as usize] = args[2].clone();
                 Ok(RV::Unspec)
+            }
+            "map" => {
+                // the bundled definition: (if (pair? list) (cons (proc (car list)) (map proc (cdr list))) list)
+                let f = args[0].clone();
+                let items = match list_to_vec(&args[1]) {
+                    Some(v) => v,
+                    None => return Err(RErr::Unsupported("map over an improper list".into())),
+                };
+                let mut out = vec![];
+                for x in items {
+                    out.push(self.apply(&f, vec![x])?);
+                }
+                Ok(list_from(out))
             }
             "for-each" => {
                 let f = args[0].clone();
